@@ -72,6 +72,65 @@ def run(ctx):
         else:
             ctx.bad(rule, key, "control failed: the analysis does not see the measurement in the leader share", kind="control")
 
+        # the helpers' joint-randomness parts (published in the public share) are derived from the helpers' own shares only:
+        # every seed pushed into the list of helper parts is measurement-free
+        rule_jr = "R-C17.N.prio3-helper-jr-parts"
+        gj = ctx.guards(f)
+        npush = 0
+        for bi, t in f.body.calls():
+            if t.callee.name != "push" or len(t.args) != 2:
+                continue
+            ce = gj.eb.call_expr(t)
+            if not Call("into_seed")(ce[2][1]):
+                continue
+            npush += 1
+            atoms = fa.operand_deps(t.args[1])
+            key = "%s:%s:push#%d" % (rule_jr, f.id, npush)
+            if depmod.has_param(atoms, meas):
+                ctx.bad(rule_jr, key, "a helper's joint-randomness part may depend on the measurement (explicit flow into the absorbed bytes); depends on %s" %
+                        fmt_atoms(atoms, f), loc="%s:%s" % (f.file, t.line))
+            else:
+                ctx.ok(rule_jr, key, "helper joint-randomness part depends only on %s" % fmt_atoms(atoms, f), loc="%s:%s" % (f.file, t.line))
+        if npush == 0:
+            ctx.bad(rule_jr, rule_jr + ":anchor", "no `parts.push(xof.into_seed())` found in shard_with_random", loc=f.loc, kind="anchor")
+
+        # the masking primitive itself: sub_assign_vector(a, b) only ever replaces an element of `a` by (that element - something)
+        rule_sv = "R-C17.M.sub-assign-vector"
+        try:
+            fs = ctx.fn(rule_sv, name="sub_assign_vector", id_re=r"^field::sub_assign_vector$")
+            fsa = D.analysis(fs)
+            gs = ctx.guards(fs)
+            nwr = 0
+            bad = []
+            for bi, si, st in fs.body.iter_stmts():
+                if st.kind != "assign" or not st.place[1] or "*" not in st.place[1] or st.rv is None:
+                    continue
+                if not depmod.has_param(fsa.local_deps(st.place[0]), 1):
+                    continue
+                nwr += 1
+                cur = gs.eb.place(st.place)
+                val = gs.eb.rvalue(st.rv)
+                if not (Bin("Sub", lambda e: e == cur, Any())(val) and not any(x == cur for x in walk(val[3]))):
+                    bad.append("line %s: %s = %s" % (st.line, fmt(cur)[:60], fmt(val)[:100]))
+            for bi, t in fs.body.calls():
+                if not t.callee.name.endswith("_assign") or not t.args or t.args[0].kind not in ("copy", "move"):
+                    continue
+                if not depmod.has_param(fsa.operand_deps(t.args[0]), 1):
+                    continue
+                nwr += 1
+                others = set()
+                for v in t.args[1:]:
+                    others |= fsa.operand_deps(v)
+                if t.callee.name != "sub_assign" or depmod.has_param(others, 1):
+                    bad.append("line %s: %s" % (t.line, fmt(gs.eb.call_expr(t))[:120]))
+            key = "%s:%s" % (rule_sv, fs.id)
+            if nwr and not bad:
+                ctx.ok(rule_sv, key, "every write to an element of `a` is `a[i] -= v` with v taken from `b` only (%d write site(s))" % nwr, loc=fs.loc)
+            else:
+                ctx.bad(rule_sv, key, "sub_assign_vector writes an element of `a` otherwise than by subtracting from it: %s" % (bad or "no write found"), loc=fs.loc)
+        except Skip:
+            pass
+
         # every value stored into the share vector is measurement-free or is a Leader share
         rule2 = "R-C17.N.prio3-stores"
         # the returned vector: _0 = Ok((public_share, shares_out))
